@@ -213,9 +213,52 @@ class E4:
                             neg = negate(tuple(subst(x, args) if isinstance(x, tuple) else x for x in rel)) if rel else None
                             if not (neg and ctx.holds(neg)):
                                 feasible = True
+                        if feasible and self.panics_infeasible_in_view(b, bi, cb):
+                            feasible = False
                         if feasible:
                             out[bi] = "call %s: %s" % (cb.id.rsplit("::", 1)[-1], sub)
         return out
+
+    def panics_infeasible_in_view(self, b, bi, cb):
+        """the callee's panic may hide behind a helper of its own (`match self.checked_len(n) { Err(e) => panic(e), .. }`): in the
+        view of `b` with the callee and its helpers inlined, every panic site spliced in for this call must be unreachable under
+        the relations that hold there together with reserve()'s post-condition (linear-inequality domain)"""
+        if b.kind not in ("fn", "assoc_fn"):
+            return False
+        from .inline import views
+        from .flow import relations_at
+        from .lin import State
+        for ib in views(self.facts, b, keep_names=("reserve", "reserve_inner")):
+            cfg = cfg_of(ib)
+            eb = ExprBuilder(ib, self.facts, inline=True)
+            sites = []
+            for pbi, blk in enumerate(ib.blocks):
+                if pbi < len(b.blocks) or blk["cleanup"] or cb.did not in (blk.get("inl_stack") or []) or in_debug_region(ib, pbi):
+                    continue
+                t = blk["term"]
+                if t["k"] != "call":
+                    continue
+                fn = callee(t)
+                if fn is None:
+                    continue
+                r = fn.get("res") or fn
+                if (r["path"] in PANIC_FNS or (t["target"] is None and fn["name"].startswith("panic"))) and cfg.reaches(bi, pbi):
+                    sites.append(pbi)
+                elif r["path"] in UNWRAPPERS or r["path"] in CAPACITY_PANICKERS:
+                    sites.append(None)           # other kinds of panic sites are not judged here
+            if not sites or any(x is None for x in sites):
+                continue
+            ok = True
+            for pbi in sites:
+                rels = [x for x in relations_at(ib, pbi, self.facts, inline=True)
+                        if x[0] in ("lt", "le", "eq", "ne") or (x[0] == "truth" and not (isinstance(x[1], tuple) and x[1] and x[1][0] == "ovf"))]
+                rels += reserve_postcondition(ib, pbi, self.facts, eb)
+                if not State(rels).refuted():
+                    ok = False
+                    break
+            if ok:
+                return True
+        return False
 
     def fn_may_contract_panic(self, b, stack=()):
         k = ("p", b.did, tuple(sorted(self.tainted.get(b.did, ()))))
